@@ -61,6 +61,13 @@ def private_state(ctx, rep, rule, class_qual):
                         muts.append(x)
                     elif isinstance(x, ast.Subscript) and isinstance(x.ctx, (ast.Store, ast.Del)) and K.self_attr(x.value, nm):
                         muts.append(x)
+            if not muts and isinstance(v, ast.Call) and (A.call_name(v) or "").split(".")[-1] in ("bytearray", "memoryview", "array"):
+                # a class-level byte buffer exists to be written into: any use through an instance shares it
+                uses = [x for m in c.methods.values() for x in A.walk(m.node) if K.self_attr(x, nm)]
+                if uses:
+                    bad.append((uses[0], "the class attribute %s.%s = %s is a writable buffer used through self (`%s`): all instances "
+                                         "in the process - every connection - fill and read the same bytes" % (
+                                             k.name, nm, A.src(v)[:30], A.src(getattr(uses[0], "_parent", uses[0]))[:50])))
             if muts:
                 bad.append((muts[0], "the class attribute %s.%s = %s is mutated through self (`%s`) but never re-bound in __init__: "
                                      "all instances in the process share one table" % (k.name, nm, A.src(v)[:30], A.src(muts[0])[:50])))
